@@ -610,6 +610,8 @@ def vyukov_bounded(ctx):
                               "the strong operation reports %s without re-reading %s (it may fail although the queue is not %s)" % (
                                   "full" if f == "do_try_push" else "empty", other, "full" if f == "do_try_push" else "empty"), fn.where(r), fn=fn)
     # the public variants dispatch to the algorithm their name promises, whatever the default policy is
+    ctx.rule("VBQ.variant-dispatch", "vyukov_bounded_queue: *_strong members run do_try_push/do_try_pop<Weak=false>, *_weak members <Weak=true>, the plain members the configured "
+                                     "default - in every instantiated configuration (incl. default_to_weak<true>)")
     n_disp = 0
     strong_under_weak_default = 0
     for fn in ctx.facts.fns:
@@ -626,7 +628,7 @@ def vyukov_bounded(ctx):
                 if leaf.endswith("_strong") and weak_default:
                     strong_under_weak_default += 1
                 got = n_["targs"][0]
-                ctx.check(got == want, rid, fn.pat + "#dispatch[%s]" % ("weak-default" if weak_default else "strong-default"),
+                ctx.check(got == want, "VBQ.variant-dispatch", fn.pat + "#dispatch[%s]" % ("weak-default" if weak_default else "strong-default"),
                           "%s runs the %s algorithm" % (leaf, "weak" if want else "strong"),
                           "%s forwards to %s<Weak=%s> in a queue configured with default_to_weak<%s>: the operation documented as %s runs the %s algorithm (a strong operation "
                           "then fails although the queue is not full/empty, a weak one blocks)" % (leaf, n_["callee"].split("::")[-1], bool(got), "true" if weak_default else "false",
